@@ -57,7 +57,8 @@ def _add_pes(spec, fanout, loop_bounds=None, min_usage=0):
 
 
 @st.composite
-def cases(draw, kind):
+def cases(draw, slot):
+    kind = slot["kind"]
     metrics = draw(st.sampled_from(METRICS))
     if kind in ("max_fused_loops", "per_rank_fused"):
         spec = draw(MM.small_specs(shapes=("chain2", "chain2", "elementwise2"), three_level_single=False))
@@ -191,28 +192,16 @@ def check(desc, col):
             key=f"{kind}:optimum-worse")
 
 
-N = {"quick": 48, "thorough": 480}
-NSHARDS = 16
+N = {"quick": 45, "thorough": 450}
 
 
 def shards(tier, seed):
-    per = N[tier] // NSHARDS
-    out = []
-    for k in range(NSHARDS):
-        # deterministic, even spread of relaxation kinds over the shards
-        kinds = [KINDS[(k * per + i + seed) % len(KINDS)] for i in range(per)]
-        out.append({"k": k, "kinds": kinds, "seed": seed})
-    return out
+    # deterministic, even spread of the relaxation kinds
+    return MM.deal([{"kind": KINDS[(i + seed) % len(KINDS)]} for i in range(N[tier])], tier, seed)
 
 
 def run_shard(shard, col):
-    counts = {}
-    for kind in shard["kinds"]:
-        counts[kind] = counts.get(kind, 0) + 1
-    for kind, n in sorted(counts.items()):
-        MM.drive_unbiased(cases(kind), check, n=n, seed=hash32(shard["seed"], "C18", shard["k"], kind), col=col)
-        if col.failures:
-            break
+    MM.run_slots(shard, col, "C18", cases, check)
 
 
 def replay(desc, col):
